@@ -410,7 +410,19 @@ def check_C02(tier, seed, t0):
 def check_C07(tier, seed, t0):
     return wire_check('C07', tier, seed, t0, STD_ASSUME)
 def check_C08(tier, seed, t0):
-    return wire_check('C08', tier, seed, t0, STD_ASSUME)
+    # "any sequence of calls after sleep and wake-up has the same effect as after construction": new; A; sleep; wake_up; B
+    # for every ordered pair of macro steps, model vs implementation on every call of the sandwich (not only on sleep /
+    # wake_up): a call that behaves like the model everywhere else but not after a sleep / wake-up cycle
+    sw = corr_run(['sw'], seed, tier)
+    main = corr_run(suites_for(tier), seed, tier)
+    plain = {(m['panel'], m['op']) for m in main['mismatches']}
+    ev = []
+    for v in corr_violations('C08', [m for m in sw['mismatches'] if (m['panel'], m['op']) not in plain], ['frames+rst'], ops=None):
+        v['clause'] = 'correspondence-after-sleep-wake-up'
+        ev.append(v)
+    n_sw = sum(t.get('ops', 0) for t in sw['tasks'])
+    return wire_check('C08', tier, seed, t0, STD_ASSUME + ["sandwich suite: new; A; sleep; wake_up; B for every ordered pair of macro steps, compared with the model on every call"],
+                      extra_viol=ev, extra_cov=dict(sandwich_ops_compared=n_sw))
 def check_C09(tier, seed, t0):
     bv, n = big_property_check('C09', seed, tier)
     return wire_check('C09', tier, seed, t0, STD_ASSUME + ["12.48in driver: per-controller reset / init / power tracking on its real traces + correspondence with Big/Model.v on the power projection (theorems: C15)"],
@@ -460,6 +472,18 @@ def scribble_violations(seed, tier):
         rng = gen.Rng(seed * 1000003 + corr.hash_name(p.name + suite))
         # histories + probe, every ordered pair of macro steps, and long chains (every op after every op)
         cases = gen.suite(p, suite, rng) + gen.suite(p, 'pair', rng) + gen.suite(p, 'chain', rng)
+        # this experiment needs no model (real run vs real run), so it also takes every ordered pair of canonical calls
+        # (e.g. update_new_frame twice without an old frame in between) and every ordered triple of buffer-taking calls
+        # with a display call after each
+        cases += [c.replace('case p', 'case sp') for c in gen.suite_pairs(p)]
+        bufops = [a for a in gen.canon_ops(p) if any(':' in t for t in a[1:])]
+        disp = ['display_new_frame'] if False else ['display_frame']
+        k = 0
+        for a in bufops:
+            for b in bufops:
+                for c in bufops:
+                    cases.append(gen.case("st%d" % k, p, [['new'], a, disp, b, disp, c, disp]))
+                    k += 1
         out = []
         for flag in (0, 1):
             path = os.path.join(odir, "%s-%d.script" % (p.name, flag))
@@ -928,8 +952,8 @@ def big_frame_oracle(script_text, real_text):
                         clause = 'transfer-of-%d-bytes' % n
                     if clause:
                         break
-            if res is not None and res.startswith('PANIC'):
-                break       # the call was refused / died half-way (malformed argument): lines are left as they were; later calls are not judged
+            if res is not None and (res.startswith('PANIC') or res.startswith('ERR')):
+                break       # the call died or failed half-way: lines are left as they were (C15's clause); later calls are not judged
             if clause:
                 viol.append(dict(panel='epd12in48b_v2', site=name, clause=clause,
                                  detail="%s: call #%d %s: %s" % (heads.get(cidk, cid), i, name, clause),
@@ -1152,6 +1176,81 @@ def big_conformance_oracle(script_text, real_text):
                                  replay=dict(kind='trace', panel='epd12in48b_v2', feat='v3', op_index=i, script=case_script_text(script_text, cidk))))
     return viol, nops
 
+def big_partial_oracle(script_text, real_text):
+    """C01/C02 on the REAL traces of the 12.48in driver: a full-frame write (write_data1 / write_data2) must not reach a
+    sub-display controller that an earlier call left in partial-window mode (PartialIn 0x91 without PartialOut 0x92 or
+    reset since): the frame would be confined to the leftover window."""
+    viol, nops = [], 0
+    R = corr.parse_out(real_text)
+    for cid, ops in R.items():
+        cidk = cid.split(' ')[0]
+        part = {c: False for c in BIG_CHIPS}
+        for (i, name, lines, res) in ops:
+            nops += 1
+            clause = None
+            for e in big_events(lines):
+                if e[0] == 'rst' and e[2] == 0:
+                    for c in (('m1', 's1') if e[1].startswith('m1') else ('m2', 's2')):
+                        part[c] = False
+                elif e[0] == 'cmd':
+                    for c in e[1]:
+                        if e[2] == 0x91:
+                            part[c] = True
+                        elif e[2] == 0x92:
+                            part[c] = False
+                        elif e[2] in (0x10, 0x13) and name in ('write_data1', 'write_data2') and part[c] and clause is None:
+                            clause = 'full-frame-write-in-partial-mode chip=%s' % c
+            if res is not None and (res.startswith('PANIC') or res.startswith('ERR')):
+                break       # a call that died or failed half-way leaves the controllers wherever it stopped: what follows without a reset is not judged
+            if clause:
+                viol.append(dict(panel='epd12in48b_v2', site=name, clause=clause, detail="%s call #%d %s: %s" % (cidk, i, name, clause),
+                                 replay=dict(kind='trace', panel='epd12in48b_v2', feat='v3', op_index=i, script=case_script_text(script_text, cidk))))
+    return viol, nops
+
+def big_addr_project(lines):
+    """the commands that decide where later data lands: partial in / out / window, resolution (with the chips they reach)"""
+    return [(sel, c, (tuple(d) if d is not None else None), n) for (sel, c, d, n) in big_cmd_runs(lines) if c in (0x90, 0x91, 0x92, 0x61)]
+
+def big_recovery_oracle(script_text, real_text, hexe):
+    """C04 (recovery) on the 12.48in driver: after a failed call, reset; init; write_data1; refresh_display put the same
+    bytes on the bus under the same chip-select / D/C levels as the same calls on a driver that never failed (the same
+    case run without the injected fault)."""
+    import subprocess
+    viol, n = [], 0
+    R = corr.parse_out(real_text)
+    todo = []
+    for cid, ops in R.items():
+        cidk = cid.split(' ')[0]
+        if len(ops) < 5 or [o[1] for o in ops[-4:]] != ['reset', 'init', 'write_data1', 'refresh_display']:
+            continue
+        if not any(l.split(' ')[0] == 'WX' for o in ops[:-4] for l in o[2]):
+            continue
+        todo.append((cidk, ops))
+    if not todo:
+        return viol, 0
+    path = os.path.join(vlib.WORK, 'bigc04-ref.script')
+    with open(path, 'w') as f:
+        for (cidk, ops) in todo:
+            txt = case_script_text(script_text, cidk).split('\n')
+            head = ' '.join(('fault=none' if t.startswith('fault=') else t) for t in txt[0].split(' '))
+            f.write('\n'.join([head] + txt[1:]) + '\n')
+    r = subprocess.run([hexe, 'run', path], stdout=subprocess.PIPE, stderr=subprocess.PIPE, text=True, env=dict(corr.ENV, EPD_FEAT='v3'))
+    ref = {k.split(' ')[0]: v for k, v in corr.parse_out(r.stdout).items()}
+    for (cidk, ops) in todo:
+        rops = ref.get(cidk)
+        if not rops or len(rops) != len(ops):
+            continue
+        n += 1
+        for k in range(4):
+            a, b = ops[-4 + k], rops[-4 + k]
+            if big_c15_project(a[2]) != big_c15_project(b[2]) or a[3] != b[3]:
+                viol.append(dict(panel='epd12in48b_v2', site=next((o[1] for o in ops[:-4] if any(l.split(' ')[0] == 'WX' for l in o[2])), '?'),
+                                 clause='recovery-differs:' + a[1],
+                                 detail="%s: after the failure, %s differs (bytes / chip-select / D/C levels) from the same call on a driver that never failed" % (cidk, a[1]),
+                                 replay=dict(kind='trace', panel='epd12in48b_v2', feat='v3', script=case_script_text(script_text, cidk))))
+                break
+    return viol, n
+
 def big_property_check(prop, seed, tier):
     """correspondence of the 12.48in driver on the property's projection + the state oracle -> violations, stats"""
     import subprocess, glob as _g
@@ -1178,6 +1277,8 @@ def big_property_check(prop, seed, tier):
         elif prop == 'C04':
             vf, n = big_fault_oracle(open(sp).read(), r.stdout)
             viol += vf
+            vr, _n = big_recovery_oracle(open(sp).read(), r.stdout, hexe)
+            viol += vr
         elif prop == 'C11':
             vf, n = big_reset_oracle(open(sp).read(), r.stdout)
             viol += vf
@@ -1187,6 +1288,9 @@ def big_property_check(prop, seed, tier):
         elif prop in ('C01', 'C02', 'C06'):
             vall, n = big_oracle(open(sp).read(), r.stdout)
             opsel = BIG_PART_OPS if prop == 'C06' else BIG_FULL_OPS
+            if prop in ('C01', 'C02'):
+                vp_, _n = big_partial_oracle(open(sp).read(), r.stdout)
+                viol += vp_
             viol += [v for v in vall if v['site'] in opsel and v['clause'] in ('tiling', 'partial-window-block', 'pixel-data-to-several-chips')]
         else:
             v5, v9, n = big_state_oracle(open(sp).read(), r.stdout)
@@ -1199,10 +1303,10 @@ def big_property_check(prop, seed, tier):
         elif kind in ('full', 'part'):
             differs = m.opname in (BIG_FULL_OPS if kind == 'full' else BIG_PART_OPS) and m.opname not in flagged and \
                       (big_c15_project(m.real) != big_c15_project(m.model) or m.rres != m.mres)
+            if kind == 'full' and not flagged and big_addr_project(m.real) != big_addr_project(m.model):
+                differs = True      # a call leaves the partial / window / resolution state differently: decides where a later full frame lands
         elif kind == 'fault':
-            def wseq(ls):
-                return [l.split(' ')[:2] for l in ls if l.split(' ')[0] in ('W', 'WX')]
-            differs = m.opname not in flagged and (m.rres != m.mres or wseq(m.real) != wseq(m.model))
+            differs = m.opname not in flagged and (m.rres != m.mres or big_c15_project(m.real) != big_c15_project(m.model))
         elif kind == 'cmdlen':
             differs = m.opname not in flagged and big_cmdlen_project(m.real) != big_cmdlen_project(m.model)
         elif kind == 'rst':
